@@ -233,7 +233,7 @@ def stepLine (st : St) (line : String) : St × Option String :=
   | ["runloop", iv, en, ov, n] =>
     match iv.toInt?, parseBool? en, parseBool? ov, n.toNat?, st.cfg, st.rs with
     | some iv, some en, some ov, some n, some cfg, some rs =>
-      let r := runnerLoop (Conc.sem cfg) iv en ov n rs 0
+      let r := runnerLoop (Conc.sem cfg) iv en ov (fun _ => none) n rs 0
       let state := match r.err with | some _ => "Faulted" | none => "Stopped"
       ({ st with rs := some r.st },
         some s!"m state={state} err={match r.err with | some e => showErr e | none => "-"} ev={dash (r.evs.filterMap showEv)}")
